@@ -57,7 +57,10 @@ EXPLANATION = ('All clauses have theorems except: "composite => is_prime returns
                'primality oracle. gcdext: Bezout/gcd and the GMP normalisation of (s, t) are proved for all integers. '
                'factor_prime_power: soundness and completeness proved (relative to a correct oracle). ratrec: soundness '
                'and termination proved; completeness (Wang: an existing reconstruction is found) is validated by the '
-               'oracle only.')
+               'oracle only. Source tie: 12 stubs (isqrt, is_square, iroot, gcdext, invert, jacobi, legendre, kronecker, '
+               'next_prime, prev_prime, ratrec, factor_prime_power) are re-translated from the current gmpy.py on every run and '
+               'proved equal to the model (PropsGen/C25Src); is_prime and powmod are tied by the differential '
+               'correspondence only.')
 ASSUMPTIONS = [
     'gmpy2 is not installed / MPYC_NOGMPY=1: the pure-Python stubs are the code under test',
     'CPython builtins pow(a,e,m), math.isqrt, math.gcd, int.bit_length, divmod behave as their models '
@@ -68,6 +71,8 @@ ASSUMPTIONS = [
     'oracle primality: sieve below 1.2*10^6, sympy.isprime above',
 ]
 TRUSTED = ['harness/numth_oracle.py (definitions: Euler criterion, Kronecker extension rules, GMP manual text)',
+           'harness/py2lean.py: the Python->Lean translation rules listed in its docstring (floor division = Int.fdiv/fmod, '
+           '`x & (2^k-1)` = x % 2^k, the trailing-zero idiom, one generic fuel-bounded loop combinator, hand-written fuels)',
            'sympy.isprime / sympy.factorint for large oracle values']
 
 DRIVER = common.LeanDriver('NumTh')
